@@ -1071,6 +1071,11 @@ def process_fn(fn, spec, handle, stats, canary):
     pre = ""
     if name in spec.trusted:
         pre = "#[verifier::external_body]\n"
+    elif re.search(r"\b(while|for|loop)\b", mask_trivia(body)):
+        # loops are verified WITH their context (facts about variables the loop does not modify, e.g. a
+        # local bound before the loop): a proof that only holds in isolation would break on a harmless
+        # edit such as `let limit = self.count; while len > limit` (a false alarm)
+        pre = "#[verifier::loop_isolation(false)]\n"
     out = "%s%s\n%s\n{%s}\n" % (pre, sig, ctext, body)
     stats["added_lines"] += ctext.count("\n") + 1 if ctext else 0
     return out
